@@ -59,6 +59,9 @@ func (w *World) onKernelEvent(ev *simkernel.Event) {
 		return
 	}
 	// bookkeeping for the D8 explanation
+	if ev.Tool == "iptables-restore" && (ev.Reject == simkernel.RejTooManyLinks || ev.Reject == simkernel.RejNoTarget) {
+		w.damaged, w.rebuildClean = true, false
+	}
 	if ev.Tool == "iptables-restore" {
 		switch {
 		case ev.Reject == simkernel.RejTooManyLinks && strings.HasPrefix(ev.Subject, "GLX-PLCY-"):
@@ -284,6 +287,10 @@ func (w *World) afterFirstSync() {
 // explainAll: which differences do the listed C15 switches predict? (w.k0 = the state the synchronisation started from)
 func (w *World) explainAll(d []DiffItem, e *Expected, o *Observed) (rest []DiffItem, used, stale0, conflict []string) {
 	stale0 = staleRefs(w.k0, e)
+	if w.convPendingNow && (w.damagedAtStart || !w.rebuildClean) && len(stale0) == 0 {
+		// a synchronisation of the history that started from, or itself met, a refused batch: D8's aftermath
+		stale0 = []string{"(a rule batch was refused since the last clean synchronisation)"}
+	}
 	conflict = typeConflicts(w.k0, e)
 	if len(d) == 0 {
 		return
@@ -354,7 +361,9 @@ func (w *World) checkSyncConverged() {
 		return
 	}
 	w.S.Stat("c15.unconverged-in-history")
+	w.convPendingNow = true
 	rest, used, stale0, conflict := w.explainAll(d, e, o)
+	w.convPendingNow = false
 	w.failNotConverged("after the full synchronisation run by "+what, d, rest, used, stale0, conflict)
 }
 
